@@ -1,9 +1,12 @@
 package checks
 
 import (
+	"bufio"
+	"bytes"
 	"fmt"
 	"hash"
 	"io"
+	"strings"
 
 	"github.com/tormoder/fit/dyncrc16"
 
@@ -19,7 +22,7 @@ func registerC14() {
 		Level: "exploration",
 		Rule: "family transitions: all 65536 register states x 256 input bytes, the register being driven to each state through the public API by writing the " +
 			"two-byte preimage computed with the bit-serial reference (every (state, byte) pair is one distinct non-trivial case); family streaming: PRNG byte strings " +
-			"(length 0..5000) x PRNG write partitions, compared with the reference, also fed through io.Copy / io.CopyN from short-reading and data-with-EOF readers, Reset, residue and Sum(nil); distinct by string digest; family long-writes: for each of the " +
+			"(length 0..5000) x PRNG write partitions, compared with the reference (each part written through Write, io.WriteString / WriteString, WriteByte if offered, io.Copy from strings and bytes readers, or a bufio.Writer), also fed through io.Copy / io.CopyN from short-reading and data-with-EOF readers, Reset, residue and Sum(nil); distinct by string digest; family long-writes: for each of the " +
 			"65536 register states s and block offsets 0/4/8/.../28 one single Write of >= 64 bytes that drives the register to s and then feeds it s itself followed by zero bytes " +
 			"(the input on which multi-byte-at-a-time and zero-skipping implementations go wrong), compared with the reference and with a byte-wise feed; family lengths: single writes of 30 KB - 2.3 MB (from zero and non-zero starting states, workers with GOMAXPROCS=4) whose length (and whose halves, thirds, " +
 			"quarters and eighths) sit at and around multiples of 32767 - the order of x modulo the CRC polynomial, where implementations that split a write and combine partial sums wrap - plus PRNG long lengths, from PRNG starting states",
@@ -72,6 +75,43 @@ func c14Transitions(c *lib.Ctx, idx uint64) {
 	}
 }
 
+// c14Feed writes p into h through one of the standard ways of feeding a writer.
+func c14Feed(h hash.Hash, p []byte, way int) (n int, how string, err error) {
+	switch way {
+	case 1:
+		n, err = io.WriteString(h, string(p))
+		if _, ok := h.(io.StringWriter); ok {
+			return n, "WriteString", err
+		}
+		return n, "io.WriteString(Write)", err
+	case 2:
+		if bw, ok := h.(io.ByteWriter); ok {
+			for _, b := range p {
+				if err = bw.WriteByte(b); err != nil {
+					return n, "WriteByte", err
+				}
+				n++
+			}
+			return n, "WriteByte", nil
+		}
+	case 3:
+		m, e := io.Copy(h, strings.NewReader(string(p)))
+		return int(m), "io.Copy(strings.Reader)", e
+	case 4:
+		m, e := io.Copy(h, bytes.NewReader(p))
+		return int(m), "io.Copy(bytes.Reader)", e
+	case 5:
+		bw := bufio.NewWriterSize(h, 16)
+		n, err = bw.Write(p)
+		if err == nil {
+			err = bw.Flush()
+		}
+		return n, "bufio.Writer", err
+	}
+	n, err = h.Write(p)
+	return n, "Write", err
+}
+
 func c14Streaming(c *lib.Ctx, idx uint64) {
 	rng := lib.NewRand("C14.streaming", idx)
 	n := 0
@@ -96,6 +136,12 @@ func c14Streaming(c *lib.Ctx, idx uint64) {
 	// PRNG partition.
 	pos := 0
 	parts := 0
+	ways := map[string]int{}
+	defer func() {
+		for w, k := range ways {
+			c.Count("parts_fed_through_"+w, int64(k))
+		}
+	}()
 	for pos < n {
 		k := 1 + rng.Intn(1+rng.Intn(200))
 		if rng.Chance(1, 10) {
@@ -104,11 +150,16 @@ func c14Streaming(c *lib.Ctx, idx uint64) {
 		if pos+k > n {
 			k = n - pos
 		}
-		m, err := h.Write(d[pos : pos+k])
+		// every part goes in through one of the ways the standard library feeds an io.Writer:
+		// Write, io.WriteString (WriteString if the hash offers it), WriteByte if it offers it,
+		// io.Copy from a strings.Reader / bytes.Reader (WriteTo, ReadFrom, or plain Write), a
+		// bufio.Writer on top
+		m, how, err := c14Feed(h, d[pos:pos+k], rng.Intn(6))
 		if err != nil || m != k {
-			c.Violation(d, "Write returned (%d, %v) for %d bytes", m, err, k)
+			c.Violation(d, "%s returned (%d, %v) for %d bytes", how, m, err, k)
 			return
 		}
+		ways[how]++
 		pos += k
 		parts++
 	}
